@@ -340,12 +340,14 @@ type c40Eval struct {
 	bad     []uint16 // per query: blocks (bit b) on which result != scan, bit 15: log outside range
 	none    []uint16 // per query: blocks (bit b) of the range for which no log at all was returned
 	// indexed range at query time
-	headIndexed bool
-	blocksCount uint64
-	blocksLast  uint64
-	errc    []uint8  // 0 ok, 1 ErrMatchAll, 2 other error
-	raw     map[int][]*types.Log
-	detail  map[int]string
+	headIndexed                         bool
+	blocksCount                         uint64
+	blocksLast                          uint64
+	blocksFirst                         uint64
+	firstBroken                         bool    // the first block of the indexed range starts before the first rendered map (c40KnownFirst)
+	errc                                []uint8 // 0 ok, 1 ErrMatchAll, 2 other error
+	raw                                 map[int][]*types.Log
+	detail                              map[int]string
 	nonEmpty, empty, matchAll, otherErr int64
 }
 
@@ -449,7 +451,7 @@ type c40Sys struct {
 	aSynced, bSynced bool
 	pendA, pendB     []c40Point
 
-	opsDone  []string
+	opsDone []string
 	// injection of a second target update at an intermediate indexing progress (hook point)
 	caseDesc  any // replay descriptor of the enclosing r.Case (injection sweep), nil inside mc.Explore
 	hookCount int
@@ -457,10 +459,10 @@ type c40Sys struct {
 	injectAt  int
 	injected  bool
 	err       error
-	npoints  int
-	nlocked  int
-	disabled bool
-	opLabel  string
+	npoints   int
+	nlocked   int
+	disabled  bool
+	opLabel   string
 }
 
 func c40New(cfg *c40Cfg) *c40Sys {
@@ -724,6 +726,17 @@ func (s *c40Sys) stateStr() string {
 		rng.headIndexed, rng.headDelimiter, f.hasTempRange, p, s.history, s.cutoff, s.path)
 }
 
+// firstBlockBroken: invariant of filterMapsRange - the first block of the fully indexed block range must begin at
+// or after the first rendered map (otherwise its first log values are not in the index).
+func (s *c40Sys) firstBlockBroken() bool {
+	rng := s.fm.indexedRange
+	if !rng.initialized || rng.blocks.IsEmpty() || rng.maps.IsEmpty() {
+		return false
+	}
+	ptr, err := s.fm.getBlockLvPointer(rng.blocks.First())
+	return err == nil && ptr < uint64(rng.maps.First())<<s.fm.logValuesPerMap
+}
+
 // runQueries executes the complete query set on the current index state through the real matcher.
 func (s *c40Sys) runQueries() *c40Eval {
 	f := s.fm
@@ -741,6 +754,8 @@ func (s *c40Sys) runQueries() *c40Eval {
 	e.blocksCount = f.indexedRange.blocks.Count()
 	if e.blocksCount > 0 {
 		e.blocksLast = f.indexedRange.blocks.Last()
+		e.blocksFirst = f.indexedRange.blocks.First()
+		e.firstBroken = s.firstBlockBroken()
 	}
 	e.errc = make([]uint8, nq)
 	ci := c40Info(e.opath)
@@ -855,6 +870,11 @@ func (s *c40Sys) observe(quiescent bool) {
 		}
 		return
 	}
+	if s.firstBlockBroken() {
+		s.cfg.r.Violation(c40KnownFirst, fmt.Sprintf("ops %v at %s#%d: indexed block range starts with a block whose first log values lie before the first rendered map: {%s}",
+			s.opsDone, s.opLabel, s.npoints, s.stateStr()), s.replayDesc())
+		s.cfg.r.Outcome("state:KNOWN first indexed block starts before the first rendered map")
+	}
 	fp := s.fingerprint(false)
 	v, _ := s.cfg.evals.LoadOrStore(fp, &c40EvalSlot{})
 	slot := v.(*c40EvalSlot)
@@ -879,6 +899,21 @@ func (s *c40Sys) observe(quiescent bool) {
 	}
 	if os.Getenv("C40_DEBUG") != "" {
 		fmt.Printf("C40DBG %s#%d q=%v {%s}\n", s.opLabel, s.npoints, quiescent, s.stateStr())
+		if os.Getenv("C40_DEBUG") == "2" {
+			var sb strings.Builder
+			for m := uint32(0); m < 20; m++ {
+				if n, _, err := f.getLastBlockOfMap(m); err == nil {
+					fmt.Fprintf(&sb, " m%d:%d", m, n)
+				}
+			}
+			sb.WriteString(" |")
+			for b := uint64(0); b < 12; b++ {
+				if p, err := f.getBlockLvPointer(b); err == nil {
+					fmt.Fprintf(&sb, " b%d:%d", b, p)
+				}
+			}
+			fmt.Printf("C40DBG   lastBlockOfMap%s\n", sb.String())
+		}
 	}
 	pt := c40Point{fp: fp, e: slot.e, label: fmt.Sprintf("%s#%d(%s)", s.opLabel, s.npoints, kind)}
 	if s.aSynced {
@@ -939,7 +974,10 @@ func (s *c40Sys) validate(pts []c40Point, sr SyncRange, sess string) {
 				sess, s.stateStr(), vb.First(), vb.AfterLast(), sr.IndexedBlocks.First(), sr.IndexedBlocks.AfterLast(), ivp, pt.label, pt.e.state, vd.err)
 			var kn *c40Known
 			if errors.As(vd.err, &kn) {
-				s.cfg.r.Violation(kn.key, fmt.Sprintf("ops %v: %v", s.opsDone, err), s.replayDesc())
+				for i, k := range kn.keys {
+					s.cfg.r.Violation(k, fmt.Sprintf("ops %v: session %s closed at %s [sync: valid=[%d,%d) indexed=[%d,%d) view=%q], query executed at %s on state {%s}: %s",
+						s.opsDone, sess, s.stateStr(), vb.First(), vb.AfterLast(), sr.IndexedBlocks.First(), sr.IndexedBlocks.AfterLast(), ivp, pt.label, pt.e.state, kn.msgs[i]), s.replayDesc())
+				}
 				continue
 			}
 			s.fail(err)
@@ -953,9 +991,15 @@ func (s *c40Sys) validate(pts []c40Point, sr SyncRange, sess string) {
 // search stops before that block; updateMatchersValidRange however keeps blocks.Last() inside ValidBlocks.
 const c40KnownCutOff = "C40:last-fully-indexed-block-cut-off-but-reported-valid"
 
-type c40Known struct{ key, msg string }
+// c40KnownFirst: mapRenderer.getUpdatedRange/getTempRange call blocks.SetFirst(lastBlockOfMap(first-1)+1) and then
+// blocks.SetAfterLast(lastBlock of the last written map); when a head render that restarted at a tail map boundary writes
+// a first batch that still lies inside that boundary block, SetAfterLast(v<first) pulls `first` down to the boundary
+// block, whose beginning lies in the unrendered map before maps.First(); later batches keep it.
+const c40KnownFirst = "C40:first-indexed-block-starts-before-first-rendered-map"
 
-func (k *c40Known) Error() string { return k.msg }
+type c40Known struct{ keys, msgs []string }
+
+func (k *c40Known) Error() string { return strings.Join(k.msgs, " ;; ") }
 
 // check compares, for every query, what the user would be given for the claimed-valid part of the range
 // with the direct scan of the indexed view's receipts.
@@ -982,8 +1026,8 @@ func (cfg *c40Cfg) check(e *c40Eval, vb common.Range[uint64], ivp string, ivok b
 		mask |= 1 << b
 	}
 	ci := c40Info(ivp)
-	var claimed, unclaimed, reported, cutoff int64
-	var cutoffExample string
+	var claimed, unclaimed, reported, cutoff, nFirst int64
+	var cutoffExample, exFirst string
 	for q := range e.bad {
 		fi, rg := e.queries[q].fi, [2]uint64{e.queries[q].first, e.queries[q].last}
 		qr := common.NewRange(rg[0], rg[1]+1-rg[0])
@@ -1014,11 +1058,26 @@ func (cfg *c40Cfg) check(e *c40Eval, vb common.Range[uint64], ivp string, ivok b
 			continue
 		}
 		if b := e.bad[q] & mask & c40BlockMask; b != 0 {
-			if !e.headIndexed && e.blocksCount > 0 && b == 1<<e.blocksLast && e.none[q]&b != 0 {
-				// known root cause (see c40KnownCutOff): counted, reported once under a stable key
-				cutoff++
-				if cutoffExample == "" {
-					cutoffExample = fmt.Sprintf("%s: within the valid part [%d,%d] the logs of block %d are missing; %s", desc(), nr.First(), nr.Last(), e.blocksLast, e.detail[q])
+			// known root causes: counted here, reported once under stable keys
+			var known uint16
+			if !e.headIndexed && e.blocksCount > 0 && e.none[q]&(1<<e.blocksLast) != 0 {
+				known |= 1 << e.blocksLast
+			}
+			if e.firstBroken {
+				known |= 1 << e.blocksFirst
+			}
+			if b&^known == 0 {
+				ex := fmt.Sprintf("%s: within the valid part [%d,%d] the result differs from the direct scan on blocks (bitmask) %#b; %s", desc(), nr.First(), nr.Last(), b, e.detail[q])
+				if e.firstBroken && b&(1<<e.blocksFirst) != 0 {
+					nFirst++
+					if exFirst == "" {
+						exFirst = ex
+					}
+				} else {
+					cutoff++
+					if cutoffExample == "" {
+						cutoffExample = ex
+					}
 				}
 				continue
 			}
@@ -1029,9 +1088,17 @@ func (cfg *c40Cfg) check(e *c40Eval, vb common.Range[uint64], ivp string, ivok b
 			return fmt.Errorf("%s: result contains logs outside the requested range; %s", desc(), e.detail[q])
 		}
 	}
-	if cutoff > 0 {
-		r.OutcomeN("queries:KNOWN last-indexed-block cut off while reported valid", cutoff)
-		return &c40Known{key: c40KnownCutOff, msg: cutoffExample}
+	if cutoff > 0 || nFirst > 0 {
+		kn := &c40Known{}
+		if cutoff > 0 {
+			r.OutcomeN("queries:KNOWN last-indexed-block cut off while reported valid", cutoff)
+			kn.keys, kn.msgs = append(kn.keys, c40KnownCutOff), append(kn.msgs, cutoffExample)
+		}
+		if nFirst > 0 {
+			r.OutcomeN("queries:KNOWN first indexed block incomplete (starts before the first rendered map)", nFirst)
+			kn.keys, kn.msgs = append(kn.keys, c40KnownFirst), append(kn.msgs, exFirst)
+		}
+		return kn
 	}
 	r.OutcomeN("queries:claimed-and-equal-to-scan", claimed)
 	r.OutcomeN("queries:outside-valid-range(no claim)", unclaimed)
@@ -1215,6 +1282,9 @@ func c40InjectSweep(r *mc.R, cfg *c40Cfg, bases [][]string, xs, ys []string) {
 	r.Parallel(len(cases), func(i int) {
 		c := cases[i]
 		r.Case(c, func() error {
+			if os.Getenv("C40_DEBUG_BACK") != "" {
+				fmt.Printf("C40DBG inject case %+v\n", c)
+			}
 			s, err := prep(c.Base, c.X)
 			if s == nil {
 				return err
@@ -1306,16 +1376,16 @@ func c40Run(t *testing.T, scaled bool) {
 		q := r.Quick()
 		if scaled {
 			plans = []plan{
-				{"scaled-tiny", c40Tiny, false, mc.Pick(r, 6, 10), 3, 2, mc.Pick(r, []int{0, 1}, []int{0, 1, 3}), mc.Pick(r, []int{2}, []int{0, 2, 5}), q,
+				{"scaled-tiny", c40Tiny, false, mc.Pick(r, 6, 10), 3, mc.Pick(r, 2, 3), mc.Pick(r, []int{0, 1}, []int{0, 1, 3}), mc.Pick(r, []int{2}, []int{0, 2, 5}), q,
 					mc.Pick(r, [][]string{{}}, [][]string{{}, {"hist1"}}), mc.Pick(r, []string{"ext2"}, []string{"ext2", "reorg2+2"}), mc.Pick(r, []string{"reorg1+1", "reorg2+1"}, []string{"reorg1+1", "reorg2+1", "ext1"})},
-				{"scaled-mid", c40Mid, true, mc.Pick(r, 7, 10), 3, 2, mc.Pick(r, []int{0, 2}, []int{0, 2, 5}), mc.Pick(r, []int{4}, []int{0, 4}), q,
+				{"scaled-mid", c40Mid, true, mc.Pick(r, 7, 10), 3, mc.Pick(r, 2, 3), mc.Pick(r, []int{0, 2}, []int{0, 2, 5}), mc.Pick(r, []int{4}, []int{0, 4}), q,
 					mc.Pick(r, [][]string{{}}, [][]string{{}, {"hist2"}}), mc.Pick(r, []string{"ext2"}, []string{"ext2", "reorg2+2"}), mc.Pick(r, []string{"reorg1+1"}, []string{"reorg1+1", "reorg2+1", "ext1"})},
 			}
 		} else {
 			plans = []plan{
-				{"tiny", c40Tiny, false, mc.Pick(r, 8, 12), 3, mc.Pick(r, 2, 3), []int{0, 1, 3}, []int{0, 2, 5}, false,
+				{"tiny", c40Tiny, false, mc.Pick(r, 8, 12), 3, mc.Pick(r, 3, 4), []int{0, 1, 3}, []int{0, 2, 5}, false,
 					[][]string{{}, {"hist1"}, {"hist3"}, {"cut2"}, {"ext3", "hist1"}}, []string{"ext2", "ext3", "reorg2+2"}, []string{"reorg1+1", "reorg2+1", "ext1", "cut2"}},
-				{"mid", c40Mid, true, mc.Pick(r, 8, 12), 4, mc.Pick(r, 2, 3), []int{0, 2, 5}, []int{0, 4}, false,
+				{"mid", c40Mid, true, mc.Pick(r, 8, 12), 4, mc.Pick(r, 3, 4), []int{0, 2, 5}, []int{0, 4}, false,
 					[][]string{{}, {"hist2"}, {"cut4"}, {"ext3", "hist2"}}, []string{"ext2", "ext3", "reorg2+2"}, []string{"reorg1+1", "reorg2+1", "ext1", "cut4"}},
 				{"pkg-testParams", testParams, false, mc.Pick(r, 8, 12), 3, mc.Pick(r, 2, 3), []int{0, 3}, []int{0, 2}, false, nil, nil, nil},
 			}
@@ -1323,6 +1393,16 @@ func c40Run(t *testing.T, scaled bool) {
 		for _, pl := range plans {
 			if r.Expired() {
 				break
+			}
+			if only := os.Getenv("C40_ONLY"); only != "" && only != pl.name { // debugging aid
+				continue
+			}
+			if dd := os.Getenv("C40_DEPTH"); dd != "" { // debugging aid
+				fmt.Sscan(dd, &pl.depth)
+			}
+			if os.Getenv("C40_DEBUG_BACK") != "" { // debugging aid: deliver plain roll backs mid-rendering (crashes the unchanged indexer)
+				c40InjOps["back1"] = c40Op{"back1", c40Back, 1, 0}
+				pl.injY = []string{"back1"}
 			}
 			cfg := &c40Cfg{full: r.Thorough(), name: pl.name, params: pl.p, hashScheme: pl.hashScheme, maxLen: pl.maxLen, initLen: pl.initLen, depth: pl.depth, ops: c40Ops(pl.cuts, pl.hists, pl.fewOps), r: r}
 			r.Bound(pl.name+".max_chain_length", pl.maxLen)
